@@ -623,13 +623,7 @@ func (c *Ctx) OnlyWhenReturn(fnSpec, valPat, cond, desc string) {
 			continue
 		}
 		n++
-		found := false
-		for _, g := range f.GuardsAt(b) {
-			if matchCondAny(cond, Normalize(f.Term(g.Cond), g.Polarity)) {
-				found = true
-			}
-		}
-		if !found {
+		if found, _ := condHolds(f, b, cond); !found {
 			c.add("P", fnSpec, role, desc, report.Violated, "return of "+valPat+" not under condition "+cond, c.posOf(ret))
 			return
 		}
